@@ -308,7 +308,7 @@ impl<T: Qcow2IoOps> Qcow2Dev<T> {
                     // and it must not be committed into the cache by the next
                     // commit_wmap() as if it had been loaded
                     drop(slice);
-                    cache.remove_from_wmap(&key);
+                    cache.remove_from_wmap(&key, &entry);
                     return Err(err);
                 }
                 log::trace!("add_cache_slice: load from disk");
@@ -319,7 +319,7 @@ impl<T: Qcow2IoOps> Qcow2Dev<T> {
             }
 
             //commit all populated caches and make them visible
-            Ok(cache.commit_wmap(&key))
+            Ok(cache.commit_wmap(&key, &entry))
         } else {
             log::trace!("add_cache_slice: slice is already update");
             Ok(None)
